@@ -687,6 +687,13 @@ func c12Extras(a, b *c12Value, tm map[string]reflect.Type, nm map[string]string,
 			out = append(out, &c12Extra{what: "one-shot decode of the first of two messages (" + pr[0].desc + ")", decIn: append([]byte{}, buf.Bytes()...), second: true})
 		}
 	}
+	// a binary in the draft's chunk tag on one decoder, then - on another - a message whose third class has an
+	// instance in the short form x62 at an untyped position (one octet, two meanings, told apart per message)
+	tm["K00"], tm["K01"], tm["K02"] = reflect.TypeOf(zoo.K00{}), reflect.TypeOf(zoo.K01{}), reflect.TypeOf(zoo.K02{})
+	out = append(out, &c12Extra{what: "decode of a binary sent in 'b' chunks", decIn: []byte{'b', 0, 2, 'x', 'y', 'b', 0, 1, '-', 0x22, 'z', 'w'}, want: []byte("xy-zw")})
+	out = append(out, &c12Extra{what: "decode of a list holding instances of three classes, the third in the short form x62",
+		decIn: []byte{0x57, 'C', 3, 'K', '0', '0', 0x91, 1, 'a', 0x60, 0x95, 'C', 3, 'K', '0', '1', 0x91, 1, 'a', 0x61, 1, 'x', 'C', 3, 'K', '0', '2', 0x91, 1, 'a', 0x62, 0xe5, 0x62, 0xe6, 'Z'},
+		want:  []interface{}{&zoo.K00{A: 5}, &zoo.K01{A: "x"}, &zoo.K02{A: 5}, &zoo.K02{A: 6}}})
 	tm["Color"] = reflect.TypeOf(zoo.Color{})
 	for _, name := range []string{"RED", "GREEN"} {
 		out = append(out, &c12Extra{what: "decode of the enum constant " + name + " (an instance of a class whose one field is \"name\")",
